@@ -331,7 +331,9 @@ Hypothesis W2 : wf e2.
 Hypothesis Hc : can_combine e1 e2 = true.
 Hypothesis Hd1 : e_dim C e1 = None.
 Hypothesis Hd2 : e_dim C e2 = None.
-Hypothesis Hrest : Forall (fun e => fermionic (e_type C e) = false) rest.
+(* fermionic exponents among the others keep their partner inside `rest` *)
+Hypothesis Hoff : forall j o, fermionic (e_type C (nthe rest j)) = true ->
+  e_off C (nthe rest j) = Some o -> (0 <= Z.of_nat j + o)%Z.
 
 Definition e12 : bexp := combine2 e1 e2.
 Definition expsA : list bexp := e1 :: e2 :: rest.
@@ -375,11 +377,6 @@ Proof. unfold Model.C19.heom_dims, expsA, dimsR. simpl. now rewrite Hd1, Hd2. Qe
 Lemma dimsB_eq : heom_dims expsB D = (D + 1) :: dimsR.
 Proof. unfold Model.C19.heom_dims, expsB, dimsR. simpl. now rewrite dim12. Qed.
 
-Lemma rest_bos j : fermionic (e_type C (nthe rest j)) = false.
-Proof.
-  unfold Model.C19.nthe. revert j. induction Hrest as [|e l He Hl IH]; intros [|j]; simpl; auto.
-Qed.
-
 (* operators *)
 Lemma opA_next0 m : block_op expsA odd (TNext m 0) = Some (pmp C cneg 0 (cneg ci)).
 Proof.
@@ -396,19 +393,6 @@ Proof.
   simpl. unfold Model.C19.grad_next. cbn [Model.C19.nthe nth expsB].
   destruct bos12 as (_ & _ & F). now rewrite F.
 Qed.
-Lemma opA_nextR m j :
-  block_op expsA odd (TNext m (S (S j))) = Some (pmp C cneg (S (S j)) (cneg ci)).
-Proof.
-  simpl. unfold Model.C19.grad_next. cbn [Model.C19.nthe nth expsA].
-  pose proof (rest_bos j) as F. unfold Model.C19.nthe in F. now rewrite F.
-Qed.
-Lemma opB_nextR m j :
-  block_op expsB odd (TNext m (S j)) = Some (pmp C cneg (S j) (cneg ci)).
-Proof.
-  simpl. unfold Model.C19.grad_next. cbn [Model.C19.nthe nth expsB].
-  pose proof (rest_bos j) as F. unfold Model.C19.nthe in F. now rewrite F.
-Qed.
-
 Lemma opA_prev0 m : block_op expsA odd (TPrev m 0) = gp1 e1 0 (natC (nth 0 m 0)).
 Proof.
   simpl. unfold Model.C19.grad_prev. cbn [Model.C19.nthe nth expsA].
@@ -424,19 +408,81 @@ Proof.
   simpl. unfold Model.C19.grad_prev. cbn [Model.C19.nthe nth expsB].
   destruct bos12 as (_ & _ & F). rewrite F. reflexivity.
 Qed.
-Lemma opA_prevR a b m j :
-  block_op expsA odd (TPrev (a :: b :: m) (S (S j))) =
-  gp1 (nthe rest j) (S (S j)) (natC (nth j m 0)).
+(* ---- the other exponents (bosonic or fermionic): position j+2 in A, j+1 in B *)
+Lemma fermA a b m : ferm_n C expsA (a :: b :: m) = 0 :: 0 :: ferm_n C rest m.
 Proof.
-  simpl. unfold Model.C19.grad_prev. cbn [Model.C19.nthe nth expsA].
-  pose proof (rest_bos j) as F. unfold Model.C19.nthe in F. rewrite F. reflexivity.
+  unfold ferm_n, expsA. cbn [combine map fst snd].
+  destruct bos12 as (F1 & F2 & _). now rewrite F1, F2.
 Qed.
-Lemma opB_prevR s m j :
-  block_op expsB odd (TPrev (s :: m) (S j)) =
-  gp1 (nthe rest j) (S j) (natC (nth j m 0)).
+Lemma fermB s m : ferm_n C expsB (s :: m) = 0 :: ferm_n C rest m.
 Proof.
-  simpl. unfold Model.C19.grad_prev. cbn [Model.C19.nthe nth expsB].
-  pose proof (rest_bos j) as F. unfold Model.C19.nthe in F. rewrite F. reflexivity.
+  unfold ferm_n, expsB. cbn [combine map fst snd].
+  destruct bos12 as (_ & _ & F). now rewrite F.
+Qed.
+Lemma sign1A a b m : sign1_exp C expsA (a :: b :: m) odd = sign1_exp C rest m odd.
+Proof. unfold sign1_exp. now rewrite fermA. Qed.
+Lemma sign1B s m : sign1_exp C expsB (s :: m) odd = sign1_exp C rest m odd.
+Proof. unfold sign1_exp. now rewrite fermB. Qed.
+Lemma sign2A a b m j : sign2_exp C expsA (a :: b :: m) (S (S j)) odd = sign2_exp C rest m j odd.
+Proof. unfold sign2_exp. now rewrite fermA. Qed.
+Lemma sign2B s m j : sign2_exp C expsB (s :: m) (S j) odd = sign2_exp C rest m j odd.
+Proof. unfold sign2_exp. now rewrite fermB. Qed.
+
+Lemma sbarA j :
+  fermionic (e_type C (nthe rest j)) = true ->
+  sigma_bar C c0 expsA (S (S j)) = option_map (fun t => S (S t)) (sigma_bar C c0 rest j).
+Proof.
+  intros F. unfold sigma_bar, expsA. cbn [Model.C19.nthe nth length].
+  fold (nthe rest j). destruct (e_off C (nthe rest j)) as [o|] eqn:E; [|reflexivity].
+  pose proof (Hoff j o F E) as H0.
+  destruct (Z.leb_spec 0 (Z.of_nat (S (S j)) + o)); [|lia].
+  destruct (Z.leb_spec 0 (Z.of_nat j + o)); [|lia].
+  destruct (Z.ltb_spec (Z.of_nat (S (S j)) + o) (Z.of_nat (S (S (length rest)))));
+    destruct (Z.ltb_spec (Z.of_nat j + o) (Z.of_nat (length rest))); cbn [andb option_map]; try lia;
+    [|reflexivity].
+  f_equal. lia.
+Qed.
+Lemma sbarB j :
+  fermionic (e_type C (nthe rest j)) = true ->
+  sigma_bar C c0 expsB (S j) = option_map S (sigma_bar C c0 rest j).
+Proof.
+  intros F. unfold sigma_bar, expsB. cbn [Model.C19.nthe nth length].
+  fold (nthe rest j). destruct (e_off C (nthe rest j)) as [o|] eqn:E; [|reflexivity].
+  pose proof (Hoff j o F E) as H0.
+  destruct (Z.leb_spec 0 (Z.of_nat (S j) + o)); [|lia].
+  destruct (Z.leb_spec 0 (Z.of_nat j + o)); [|lia].
+  destruct (Z.ltb_spec (Z.of_nat (S j) + o) (Z.of_nat (S (length rest))));
+    destruct (Z.ltb_spec (Z.of_nat j + o) (Z.of_nat (length rest))); cbn [andb option_map]; try lia;
+    [|reflexivity].
+  f_equal. lia.
+Qed.
+
+Lemma coefNextR a b m j bb :
+  coef_at cmap (opt_sop (block_op expsA odd (TNext (a :: b :: m) (S (S j))))) bb =
+  coef_at (fun x => x) (opt_sop (block_op expsB odd (TNext ((a + b) :: m) (S j)))) bb.
+Proof.
+  cbn [Model.C19.block_op]. unfold Model.C19.grad_next.
+  unfold expsA at 1, expsB at 1. cbn [Model.C19.nthe nth]. fold (nthe rest j).
+  destruct (fermionic (e_type C (nthe rest j))) eqn:F; [|reflexivity].
+  unfold grad_next_fermionic. rewrite sign1A, sign1B, sign2A, sign2B.
+  unfold expsA, expsB. cbn [Model.C19.nthe nth]. fold (nthe rest j).
+  destruct (e_type C (nthe rest j)); try reflexivity;
+    destruct (negb (Nat.even (sign1_exp C rest m odd))); reflexivity.
+Qed.
+
+Lemma coefPrevR a b m j bb :
+  coef_at cmap (opt_sop (block_op expsA odd (TPrev (a :: b :: m) (S (S j))))) bb =
+  coef_at (fun x => x) (opt_sop (block_op expsB odd (TPrev ((a + b) :: m) (S j)))) bb.
+Proof.
+  cbn [Model.C19.block_op]. unfold Model.C19.grad_prev.
+  unfold expsA at 1, expsB at 1. cbn [Model.C19.nthe nth]. fold (nthe rest j).
+  destruct (fermionic (e_type C (nthe rest j))) eqn:F.
+  - unfold grad_prev_fermionic. rewrite sbarA, sbarB by assumption.
+    destruct (sigma_bar C c0 rest j) as [t|]; [|reflexivity]. cbn [option_map].
+    rewrite sign1A, sign1B, sign2A, sign2B.
+    unfold expsA, expsB. cbn [Model.C19.nthe nth]. fold (nthe rest j). fold (nthe rest t).
+    destruct (e_type C (nthe rest j)); reflexivity.
+  - exact (coef_gp1_shift (nthe rest j) j (natC (nth j m 0)) bb).
 Qed.
 
 Notation csA := (col_sum cmap merge_label merge_weight expsA odd).
@@ -533,9 +579,8 @@ Proof.
   rewrite prev_A_rest, prev_B_rest, next_A_rest, next_B_rest.
   destruct (ados_prev r j) as [m|]; destruct (nx_ok dimsR D a b r j); simpl app;
     rewrite ?col_sum_cons, ?col_sum_nil; unfold term;
-    rewrite ?opA_nextR, ?opB_nextR, ?opA_prevR, ?opB_prevR;
-    cbn [trow merge_label merge_weight opt_sop];
-    rewrite ?coef_pmp_shift, ?coef_gp1_shift, ?natC_1; ring.
+    cbn [trow merge_label merge_weight];
+    rewrite ?coefNextR, ?coefPrevR, ?natC_1; ring.
 Qed.
 
 (* T G_A = G_B T, column by column, cached operator by cached operator *)
